@@ -34,6 +34,21 @@ BAD_VALUE = ['amount + "x"', 'next(r.item for r in rows)', 'extract(description,
 ROWS = {'rows': [], 'orders': [{'item': 'Book', 'amount': 12.5}]}
 
 
+def ill_typed_calls(r, k):
+    """every function the evaluators resolve, applied to a number / a row / a list where text is expected, in each argument position"""
+    from .c03 import function_names
+    wrong = ['5', 'amount', '2.5', 'orders', 'orders[0]', 'date', 'true']
+    ok = ['description', '"a"', '0']
+    out = []
+    for fn in function_names():
+        for pos in range(3):
+            for arity in range(pos + 1, 4):
+                args = [r.choice(ok) for _ in range(arity)]
+                args[pos] = r.choice(wrong)
+                out.append(f'{fn}({", ".join(args)}) == "zz"')
+    return r.sample(out, min(k, len(out)))
+
+
 def _noaddr(tag):
     """an escaped generator object prints with its address (recorded observation of C03); not part of this comparison"""
     import re
@@ -62,10 +77,11 @@ def plant(r, f):
     """Replace / add failing expressions in an abstract rules file. Returns names of rules made to fail."""
     f = copy.deepcopy(f)
     failing = []
+    bad_pool = BAD_MATCH + ill_typed_calls(r, 12)
     for rule in f['rules']:
         k = r.random()
         if k < 0.3:
-            rule['match'] = r.choice(BAD_MATCH) if r.random() < 0.6 else f'({rule["match"]}) and {r.choice(BAD_MATCH)}'
+            rule['match'] = r.choice(bad_pool) if r.random() < 0.6 else f'({rule["match"]}) and {r.choice(bad_pool)}'
             failing.append(rule['name'])
         elif k < 0.4:
             rule.setdefault('lets', []).append(('broken', r.choice(BAD_VALUE)))
@@ -172,7 +188,9 @@ def cli_oracle(r):
     from . import c17
     bad = r.choice(BAD_MATCH)
     rules_text = f'[Bad]\nmatch: {bad}\ncategory: X\n\n' + c17.CMD_VALID
-    views = '[Typed]\nfilter: total > "x"\n\n[Listy]\nfilter: count(by("month")) >= 1\n\n[All]\nfilter: total > 0\n'
+    bad_view = r.choice(['total > "x"', 'max(sum(by(12))) > 500', 'count(by(5)) > 1', 'sum(period(12)) > 0', 'avg(payments.x) > 1', 'months.lower() == "x"',
+                         'stddev(category) > 1', 'by("month") > 3', 'min(tags) > 1', 'total / "2" > 1', 'count(payments, 3) > 1', 'nosuch > 1'])
+    views = '[Typed]\nfilter: %s\n\n[Listy]\nfilter: count(by("month")) >= 1\n\n[All]\nfilter: total > 0\n' % bad_view
     rc, out = c17.run_cmd(rules_text, ('up', 'config', '--format', 'json', '-q'), views_text=views)
     if rc != 0 or 'Traceback' in out:
         return [{'class': 'cli-aborts', 'exit': rc, 'output_tail': out[-600:], 'rules': rules_text, 'views': views}]
